@@ -200,7 +200,7 @@ func getInboxForwardingValues(o vocab.Type) (t []vocab.Type, iri []*url.URL) {
 			for iter := irt.Begin(); iter != irt.End(); iter = iter.Next() {
 				if tv := iter.GetType(); tv != nil {
 					t = append(t, tv)
-				} else {
+				} else if iter.IsIRI() {
 					iri = append(iri, iter.GetIRI())
 				}
 			}
@@ -212,7 +212,7 @@ func getInboxForwardingValues(o vocab.Type) (t []vocab.Type, iri []*url.URL) {
 			for iter := tag.Begin(); iter != tag.End(); iter = iter.Next() {
 				if tv := iter.GetType(); tv != nil {
 					t = append(t, tv)
-				} else {
+				} else if iter.IsIRI() {
 					iri = append(iri, iter.GetIRI())
 				}
 			}
@@ -224,7 +224,7 @@ func getInboxForwardingValues(o vocab.Type) (t []vocab.Type, iri []*url.URL) {
 			for iter := obj.Begin(); iter != obj.End(); iter = iter.Next() {
 				if tv := iter.GetType(); tv != nil {
 					t = append(t, tv)
-				} else {
+				} else if iter.IsIRI() {
 					iri = append(iri, iter.GetIRI())
 				}
 			}
@@ -236,7 +236,7 @@ func getInboxForwardingValues(o vocab.Type) (t []vocab.Type, iri []*url.URL) {
 			for iter := tar.Begin(); iter != tar.End(); iter = iter.Next() {
 				if tv := iter.GetType(); tv != nil {
 					t = append(t, tv)
-				} else {
+				} else if iter.IsIRI() {
 					iri = append(iri, iter.GetIRI())
 				}
 			}
